@@ -96,7 +96,7 @@ def check(model, rep):
         if pth.ret in (None, '<none>'):
             continue
         n_paths += 1
-        ts = terms_of(pth.ret)
+        ts = terms_of(pth.ret_src)
         legs, strange, bad = {}, [], []
         for t in ts or []:
             if not (isinstance(t, ast.Call) and norm_text(t.func) == 'fsr.makeWrench' and len(t.args) >= 3):
@@ -172,7 +172,7 @@ def check(model, rep):
         if pth.ret in (None, '<none>'):
             continue
         try:
-            rt = ast.parse(pth.ret, mode='eval').body
+            rt = ast.parse(pth.ret_src, mode='eval').body
         except SyntaxError:
             rt = None
         ok_shape = isinstance(rt, ast.Tuple) and len(rt.elts) == 2
